@@ -41,6 +41,22 @@ func mutateClaim(t *core.Tape, claim sdk.Msg) (sdk.Msg, string) {
 	case uint64:
 		f.SetUint(v + 1 + uint64(t.Intn(3)))
 	case string:
+		if name != "ChainReferenceId" && t.Draw(3) == 1 {
+			// the same text with one letter in the other case (addresses are compared exactly when the claim is applied:
+			// a mixed-case bech32 receiver does not decode, so the deposit would go elsewhere)
+			for tries := 0; tries < 8 && len(v) > 0; tries++ {
+				i := t.Intn(len(v))
+				c := v[i]
+				if c >= 'a' && c <= 'z' {
+					f.SetString(v[:i] + string(c-32) + v[i+1:])
+					return cp.Interface().(sdk.Msg), name + " (letter case)"
+				}
+				if c >= 'A' && c <= 'Z' {
+					f.SetString(v[:i] + string(c+32) + v[i+1:])
+					return cp.Interface().(sdk.Msg), name + " (letter case)"
+				}
+			}
+		}
 		switch {
 		case name == "ChainReferenceId":
 			f.SetString(v) // the chain is part of the storage location, not of the body: leave
